@@ -32,7 +32,8 @@ CONSTANTS Procs, NamesOf,     \* process -> the sequence of counter names it inc
           AllowKill,
           FixF16,             \* repair: a duplicate scan that leaves the mapping gives its record up and starts over
           MaxVal,             \* the value at which a counter sticks instead of wrapping (2^64-1 in the code)
-          WarmName, WarmVal   \* a record that exists (linked, value WarmVal) before the race starts; "none" = no such record
+          WarmName, WarmVal,  \* a record that exists (linked, value WarmVal) before the race starts; "none" = no such record
+          Create              \* TRUE: the file does not exist yet; every process starts by opening (creating) it
 
 DEAD == -1
 NoRec == [name |-> "none", len |-> FALSE, next |-> 0, val |-> 0]
@@ -46,7 +47,10 @@ locals == <<maplen, pc, ph, rm, lhead, off, lim, start, tries, old, vslot, vold,
 vars == <<shared, alive, locals, done>>
 
 NInit == IF WarmName = "none" THEN InitSlots ELSE InitSlots + 1   \* records present at the start
-Size0  == PageOf(IF NInit = 0 THEN 1 ELSE NInit)
+(* size: number of 16 KiB pages; during creation (openMapped) the file is    *)
+(* shorter than a page: -2 = does not exist, -1 = exists and is empty,        *)
+(* 0 = the header has been written but not the end of the first page          *)
+Size0  == IF Create THEN -2 ELSE PageOf(IF NInit = 0 THEN 1 ELSE NInit)
 Limit0 == NInit
 Head0  == [b \in Buckets |-> IF WarmName # "none" /\ b = BucketOf[WarmName] THEN NInit ELSE 0]
 Rec0   == [s \in 1..MaxSlots |-> IF s <= InitSlots THEN [name |-> "filler", len |-> TRUE, next |-> 0, val |-> 1]
@@ -78,8 +82,44 @@ Set(v, p, x) == [v EXCEPT ![p] = x]
 (* ---- mappedFile.lookup ---- *)
 PStart(p) ==                               \* first scheduling of the process: runs up to its first file access
   /\ pc[p] = "P_start"
-  /\ pc' = Set(pc, p, "L_head")
+  /\ pc' = Set(pc, p, IF Create THEN "O_open" ELSE "L_head")
   /\ UNCHANGED <<shared, alive, rm, maplen, ph, lhead, off, lim, start, tries, old, vslot, vold, err, done>>
+
+(* ---- openMapped on a file that may not exist yet (Create) ----              *)
+(* os.OpenFile(O_CREATE); Stat; if shorter than a page: WriteAt(header, 0),    *)
+(* WriteAt(4 zero bytes, end of the first page), Stat; then mmap and compare   *)
+(* the header.  Both writes are idempotent (the header bytes are the same for  *)
+(* every process of one build and week, the page end holds no data), so any    *)
+(* number of processes may run this block concurrently and a process killed    *)
+(* inside it leaves a SHORT file, which the next opener sets up again.         *)
+(* old[p] = 1 while the process is inside the set-up block.                    *)
+OOpen(p) ==
+  /\ pc[p] = "O_open"
+  /\ size' = IF size = -2 THEN -1 ELSE size
+  /\ pc' = Set(pc, p, "O_stat")
+  /\ UNCHANGED <<limit, head, rec, alive, rm, ph, maplen, lhead, off, lim, start, tries, old, vslot, vold, err, done>>
+OStat(p) ==
+  /\ pc[p] = "O_stat"
+  /\ IF size < 1
+     THEN /\ old' = Set(old, p, 1) /\ pc' = Set(pc, p, "O_whdr") /\ UNCHANGED maplen
+     ELSE /\ maplen' = Set(maplen, p, size) /\ pc' = Set(pc, p, "L_head") /\ UNCHANGED old    \* mmap + header check
+  /\ UNCHANGED <<shared, alive, rm, ph, lhead, off, lim, start, tries, vslot, vold, err, done>>
+OWhdr(p) ==
+  /\ pc[p] = "O_whdr"
+  /\ size' = IF size < 0 THEN 0 ELSE size
+  /\ pc' = Set(pc, p, "O_wtail")
+  /\ UNCHANGED <<limit, head, rec, alive, rm, ph, maplen, lhead, off, lim, start, tries, old, vslot, vold, err, done>>
+OWtail(p) ==
+  /\ pc[p] = "O_wtail"
+  /\ size' = IF size < 1 THEN 1 ELSE size
+  /\ pc' = Set(pc, p, "O_stat2")
+  /\ UNCHANGED <<limit, head, rec, alive, rm, ph, maplen, lhead, off, lim, start, tries, old, vslot, vold, err, done>>
+OStat2(p) ==                                \* Stat, mmap, header check
+  /\ pc[p] = "O_stat2"
+  /\ maplen' = Set(maplen, p, size)
+  /\ old' = Set(old, p, 0)
+  /\ pc' = Set(pc, p, "L_head")
+  /\ UNCHANGED <<shared, alive, rm, ph, lhead, off, lim, start, tries, vslot, vold, err, done>>
 
 (* When newCounter returns after the process switched mappings (remap or     *)
 (* extension), file.newCounter1 publishes the new mapping and invalidates    *)
@@ -253,7 +293,7 @@ Kill(p) == /\ AllowKill /\ alive[p] /\ pc[p] # "Done"
            /\ UNCHANGED <<shared, locals, done>>
 
 Step(p) == /\ alive[p]
-           /\ \/ PStart(p) \/ LHead(p) \/ LLen(p) \/ LNext(p) \/ MLimit(p) \/ MOpen(p) \/ MStat(p)
+           /\ \/ PStart(p) \/ OOpen(p) \/ OStat(p) \/ OWhdr(p) \/ OWtail(p) \/ OStat2(p) \/ LHead(p) \/ LLen(p) \/ LNext(p) \/ MLimit(p) \/ MOpen(p) \/ MStat(p)
               \/ RLimit(p) \/ EStat(p) \/ EWrite(p) \/ EOpen(p) \/ EMap(p) \/ RCas(p) \/ WLen(p)
               \/ KStore(p) \/ KCas(p) \/ KReload(p) \/ SLen(p) \/ SNext(p) \/ KGiveUp(p) \/ KDead(p)
               \/ VLoad(p) \/ VCas(p)
@@ -301,5 +341,8 @@ W_ValueRaced == \E p \in Procs : alive[p] /\ pc[p] = "V_cas" /\ rec[vslot[p]].va
 W_UnwrittenSeen == \E p \in Procs : alive[p] /\ pc[p] = "L_len" /\ ~rec[off[p]].len
 W_KilledAfterReserve == \E p \in Procs : ~alive[p] /\ pc[p] = "W_len"
 W_KilledAfterWrite == \E p \in Procs : ~alive[p] /\ pc[p] \in {"K_store", "K_cas"}
+W_BothCreate == \E p, q \in Procs : p # q /\ pc[p] \in {"O_whdr", "O_wtail"} /\ pc[q] \in {"O_whdr", "O_wtail"}
+W_LateHeader == \E p \in Procs : alive[p] /\ pc[p] \in {"O_whdr", "O_wtail"} /\ limit > 0      \* re-writes the header of a file that already has records
+W_KilledCreating == \E p \in Procs : ~alive[p] /\ pc[p] \in {"O_stat", "O_whdr", "O_wtail", "O_stat2"} /\ size < 1
 W_KilledMidAdd == \E p \in Procs : ~alive[p] /\ pc[p] = "V_cas"
 =============================================================================
